@@ -22,9 +22,17 @@ RULE = ("Hypothesis builds a series of 2..60 samples (all spacing kinds of twv.g
         "object whose working series lives on a different grid than the reference (same span: all flags; other "
         "span: absolute bounds); slice_by_value with start / stop in {omitted, None, a sample} and start <= stop; "
         "slice_by_index with 0 <= start, stop <= len (or omitted / None) and steps in +-{1,2,3,7}; "
-        "truncate_by_index with 0 <= start < stop <= len (or omitted / None). Non-trivial = a bound strictly "
+        "truncate_by_index with 0 <= start < stop <= len (or omitted / None); history: ONE Weaver (2..24 samples), "
+        "1..5 rounds of 1..2 selector calls (slice_by_value / slice_by_index / truncate_by_value / truncate_by_index, "
+        "requests given relative to the current series: sample numbers, gap midpoints, ulp neighbours, ratios) "
+        "followed by 1..2 steps that move the grid with the same sample count (shift_x, scale_x > 0, normalize_x, "
+        "interpolate(n=len), interpolate(new_x = same ends, moved interior), trend / scale_y / shift_y) or another "
+        "count (repeat, append_one_sample, interpolate(n)), then 1..2 more selector calls; every call is judged by "
+        "the same oracles against copies of get() (and get_reference() for truncate_by_value) taken just before "
+        "it. Non-trivial = a bound strictly "
         "inside the range and off the samples, or equal to the first / last sample, or omitted (index requests: an "
-        "omitted bound, a step != 1 or a proper non-empty sub-range); distinct = distinct full input.")
+        "omitted bound, a step != 1 or a proper non-empty sub-range; history: a selector judged after an earlier "
+        "selector call and at least one grid-moving step); distinct = distinct full input.")
 ASSUMPTIONS = [
     "x strictly increasing; truncate bounds satisfy left < right after ratio conversion (the opposite is C20's "
     "business); exact rational evaluation of ratio*span + x[0], both neighbouring cuts accepted when the exact "
@@ -35,6 +43,11 @@ ASSUMPTIONS = [
     "documented meaning of stop=None, 'length of the series', and Python's x[s:None:-k] differ); truncate_by_index "
     "with start < stop; the reference after truncate_by_index is not asserted (the 'same bounds' clause is about "
     "truncation by value)",
+    "history: a non-selector step that raises, or leaves a state that is not a finite strictly increasing series "
+    "of >= 2 samples, ends the history silently (counted; other properties own those steps); a request that is not "
+    "valid for the current state (inverted bounds, a cut that would leave < 2 samples in the working series or the "
+    "reference, truncate_by_index beyond the shorter of the two series) is skipped and counted; when working and "
+    "reference spans differ, ratio bounds are converted to absolute values of the working series first",
     "a Weaver whose reference differs from the working series is set up by assigning the public attributes x, y "
     "after construction (no other library call involved); ratio bounds are used there only when both series "
     "have the same first and last abscissa",
@@ -523,6 +536,257 @@ def truncate_index_body(ctx, case):
     nt = OMIT in (case["start"], case["stop"]) or case["stop"] is None or len(want_x) < n
     ctx.record(case, cls, nt)
 
+# ---- history: every selector call is judged against the series as it is at that moment ------------------------------------
+
+SELECTORS = ["slice_value", "slice_value", "slice_value", "slice_index", "slice_index", "truncate_value",
+             "truncate_index"]
+SAME_COUNT = ["shift_x", "scale_x", "normalize_x", "interpolate_same_n", "interpolate_new_x", "interpolate_new_x",
+              "trend", "scale_y", "shift_y"]
+OTHER_COUNT = ["repeat", "append", "interpolate_n"]
+
+
+@st.composite
+def hist_selector(draw):
+    op = draw(st.sampled_from(SELECTORS))
+    k = st.integers(0, 10 ** 4)
+    d = dict(op=op)
+    if op == "slice_value":
+        ends = st.one_of(st.sampled_from([OMIT, "none", 0, -1]), k, k)
+        d.update(start=draw(ends), stop=draw(ends))
+    elif op == "slice_index":
+        step = draw(st.sampled_from([OMIT, 1, 2, 3, 7, -1, -2, -3, -7]))
+        d.update(start=draw(st.one_of(st.just(OMIT), k, k)), step=step,
+                 stop=draw(k) if step != OMIT and step < 0 else draw(st.one_of(st.sampled_from([OMIT, None]), k, k)))
+    elif op == "truncate_value":
+        def bound():
+            kind = draw(st.sampled_from(["sample", "sample", "mid", "ulp+", "ulp-", "below", "above", "ratio", "ratio"]))
+            if kind == "ratio":
+                return [kind, draw(st.one_of(st.sampled_from([0.0, 1.0, 0.5, 0.25, 0.75]), fl(-0.5, 1.5)))]
+            if kind in ("below", "above"):
+                return [kind, draw(fl(0.0, 2.0))]
+            return [kind, draw(k)]
+        d.update(left=bound(), right=bound(), style=draw(st.sampled_from(["kw", "pos"])))
+    else:
+        d.update(i=draw(k), j=draw(k), stop_none=draw(st.integers(0, 4)) == 0)
+    return d
+
+
+@st.composite
+def hist_mutator(draw, kinds):
+    op = draw(st.sampled_from(kinds))
+    d = dict(op=op)
+    if op in ("shift_x", "shift_y"):
+        d.update(v=draw(st.one_of(st.sampled_from([1.0, -2.5, 100.0, 0.125]), fl(-100.0, 100.0))))
+    elif op in ("scale_x", "scale_y"):
+        d.update(v=draw(st.one_of(st.sampled_from([2.0, 0.5, 0.25, 4.0, 3.0]), fl(0.1, 10.0))))
+    elif op == "normalize_x":
+        lo = draw(st.one_of(st.sampled_from([0.0, -1.0, 5.0]), fl(-10.0, 10.0)))
+        d.update(lo=lo, hi=lo + draw(st.one_of(st.sampled_from([1.0, 24.0, 100.0]), fl(0.5, 100.0))))
+    elif op == "interpolate_new_x":
+        d.update(t=draw(st.lists(fl(0.0, 0.9), min_size=1, max_size=8)))
+    elif op == "interpolate_n":
+        d.update(n=draw(st.integers(2, 40)))
+    elif op == "trend":
+        d.update(a=draw(st.one_of(st.sampled_from([1.0, -0.5]), fl(-3.0, 3.0))))
+    elif op == "repeat":
+        d.update(r=draw(st.sampled_from([2, 2, 3])))
+    elif op == "append":
+        d.update(periodic=draw(st.booleans()))
+    return d
+
+
+@st.composite
+def history_case(draw, ctx):
+    s = draw(series(2, 24))
+    prog = []
+    for _ in range(draw(st.integers(1, ctx.pick(3, 5)))):
+        prog += draw(st.lists(hist_selector(), min_size=1, max_size=2))
+        prog += draw(st.lists(hist_mutator(SAME_COUNT + SAME_COUNT + OTHER_COUNT), min_size=1, max_size=2))
+    prog += draw(st.lists(hist_selector(), min_size=1, max_size=2))
+    return dict(s, prog=prog)
+
+
+def _state(res):
+    """(x list, y list) if `res` is a finite, strictly increasing series of >= 2 samples, else None"""
+    if not (isinstance(res, tuple) and len(res) == 2):
+        return None
+    out = []
+    for a in res:
+        if not isinstance(a, np.ndarray) or a.ndim != 1 or a.dtype.kind not in "iuf":
+            return None
+        out.append(a.tolist())
+    x, y = out
+    if len(x) < 2 or len(x) != len(y) or not all(math.isfinite(v) for v in x + y):
+        return None
+    if not all(b > a for a, b in zip(x[:-1], x[1:])):
+        return None
+    return x, y
+
+
+def _mutate(w, op):
+    name = op["op"]
+    x = w.x
+    if name == "shift_x":
+        w.shift_x(op["v"])
+    elif name == "scale_x":
+        w.scale_x(op["v"])
+    elif name == "normalize_x":
+        w.normalize_x(op["lo"], op["hi"])
+    elif name == "interpolate_same_n":
+        w.interpolate(n=len(x))
+    elif name == "interpolate_new_x":
+        if len(x) < 3:
+            return False
+        new_x = np.array(x, dtype=float)
+        for k, t in enumerate(op["t"]):
+            i = 1 + (k * 3) % (len(x) - 2)
+            new_x[i] = float(x[i]) + t * (float(x[i + 1]) - float(x[i]))
+        w.interpolate(new_x=new_x)
+    elif name == "interpolate_n":
+        w.interpolate(n=op["n"])
+    elif name == "trend":
+        a = op["a"]
+        w.trend(lambda t: a * t)
+    elif name == "scale_y":
+        w.scale_y(op["v"])
+    elif name == "shift_y":
+        w.shift_y(op["v"])
+    elif name == "repeat":
+        if len(x) * op["r"] > 400:
+            return False
+        w.repeat(op["r"])
+    elif name == "append":
+        w.append_one_sample(make_periodic=op["periodic"])
+    return True
+
+
+def _resolve_bound(x, spec):
+    """(value, as_ratio) of a history bound on the current abscissae"""
+    kind, v = spec
+    n = len(x)
+    if kind == "ratio":
+        return v, True
+    if kind == "below":
+        return x[0] - v * (x[-1] - x[0]), False
+    if kind == "above":
+        return x[-1] + v * (x[-1] - x[0]), False
+    i = v % n
+    if kind == "sample":
+        return x[i], False
+    if kind == "mid":
+        i = min(i, n - 2)
+        return x[i] + (x[i + 1] - x[i]) / 2, False
+    return math.nextafter(float(x[i]), math.inf if kind == "ulp+" else -math.inf), False
+
+
+def _select(ctx, w, op, cur, ref, cls):
+    """run one selector against the current state; returns 'judged', 'skipped' (request not valid here)"""
+    x, y = cur
+    n = len(x)
+    name = op["op"]
+    if name == "slice_value":
+        kw, idx = {}, {}
+        for side in ("start", "stop"):
+            v = op[side]
+            if v == "none":
+                kw[side] = None
+            elif v != OMIT:
+                idx[side] = v % n
+        if len(idx) == 2 and idx["start"] > idx["stop"]:
+            idx["start"], idx["stop"] = idx["stop"], idx["start"]
+        kw.update({k: x[i] for k, i in idx.items()})
+        lo, hi = x[idx["start"]] if "start" in idx else -math.inf, x[idx["stop"]] if "stop" in idx else math.inf
+        want = [(u, v) for u, v in zip(x, y) if lo <= u <= hi]
+        text = f"slice_by_value({', '.join(f'{k}={v!r}' for k, v in sorted(kw.items()))})"
+        check_exact(text, pair("slice_by_value", w.slice_by_value(**kw)), [u for u, _ in want], [v for _, v in want])
+    elif name == "slice_index":
+        kw = {}
+        for k in ("start", "stop"):
+            if op[k] != OMIT:
+                kw[k] = op[k] if op[k] is None else op[k] % (n + 1)
+        if op["step"] != OMIT:
+            kw["step"] = op["step"]
+        step = kw.get("step", 1)
+        if step < 0 and kw.get("stop") is None:
+            return "skipped"
+        sl = slice(kw.get("start", 0), n if kw.get("stop") is None else kw["stop"], step)
+        text = f"slice_by_index({', '.join(f'{k}={v!r}' for k, v in sorted(kw.items()))}) on {n} samples"
+        check_exact(text, pair("slice_by_index", w.slice_by_index(**kw)), x[sl], y[sl])
+    elif name == "truncate_value":
+        if ref is None:
+            return "skipped"
+        (lv, lr), (rv, rr) = _resolve_bound(x, op["left"]), _resolve_bound(x, op["right"])
+        same_span = x[0] == ref[0][0] and x[-1] == ref[0][-1]
+        if not same_span:      # ratios mean different values for the two series: use the working series' value
+            lv, lr = (lv * (x[-1] - x[0]) + x[0], False) if lr else (lv, lr)
+            rv, rr = (rv * (x[-1] - x[0]) + x[0], False) if rr else (rv, rr)
+        if not all(ordered(s[0], lv, rv, lr, rr) for s in (cur, ref)):
+            lv, lr, rv, rr = rv, rr, lv, lr
+        if not all(ordered(s[0], lv, rv, lr, rr) for s in (cur, ref)):
+            return "skipped"
+        cuts = [allowed_cut(s[0], lv, rv, lr, rr) for s in (cur, ref)]
+        if any(b[0] - a[-1] + 1 < 2 for a, b, _ in cuts):
+            return "skipped"    # would leave a series of < 2 samples: later steps of the history need a span
+        req = dict(left=lv, right=rv, lr=lr, rr=rr, style=op["style"])
+        call_truncate(w.truncate_by_value, req)
+        check_cut("working series after truncate_by_value", x, y, pair("get()", w.get()), cuts[0][0], cuts[0][1])
+        check_cut("reference after truncate_by_value", ref[0], ref[1], pair("get_reference()", w.get_reference()),
+                  cuts[1][0], cuts[1][1])
+        cls.add("truncate_value:" + ("ratio" if lr or rr else "absolute"))
+        if cuts[0][2] or cuts[1][2]:
+            ctx.count("ambiguous")
+    else:
+        m = min(n, len(w.reference_x))
+        if m < 3:
+            return "skipped"
+        i = op["i"] % (m - 1)
+        j = i + 2 + op["j"] % (m - i - 1)
+        if op["stop_none"] and m == n:
+            w.truncate_by_index(i)
+            j = n
+        else:
+            w.truncate_by_index(i, j)
+        check_exact(f"truncate_by_index({i}, {j}) on {n} samples", pair("get()", w.get()), x[i:j], y[i:j])
+    return "judged"
+
+
+def history_body(ctx, case):
+    w = Weaver(*arr(case, "x", "y"))
+    cls = series_classes(case, case["x"])
+    since, seen, judged_after_change = [], set(), 0
+    for op in case["prog"]:
+        name = op["op"]
+        if name not in SELECTORS:
+            try:
+                with np.errstate(all="ignore"):
+                    if _mutate(w, op):
+                        since.append(name)
+            except Exception as e:      # not this property's business: the history ends here
+                ctx.count(f"setup-step-failed:{name}:{type(e).__name__}")
+                break
+            continue
+        cur, ref = _state(w.get()), _state(w.get_reference())
+        if cur is None:
+            ctx.count("history-ended:state-not-a-valid-series")
+            break
+        try:
+            verdict = _select(ctx, w, op, cur, ref, cls)
+        except Violation as v:
+            v.msg = f"after {since or 'no'} step(s) since the last selector call: {v.msg}"
+            raise
+        if verdict == "skipped":
+            ctx.count("request-not-valid-here:" + name)
+            continue
+        cls.add("sel:" + name)
+        if seen and since:
+            judged_after_change += 1
+            cls |= {"after:" + m for m in since}
+            cls.add(f"{name}-after-grid-change")
+        seen.add(name)
+        since = [] if name.startswith("slice") else [name]
+    cls.add("selectors-judged-after-a-change:" + str(min(judged_after_change, 3)))
+    ctx.record(case, cls, judged_after_change > 0)
+
 
 SUBCHECKS = [
     Sub("truncate", "hyp", truncate_body, strategy=truncate_case, quick=600, thorough=15000,
@@ -536,4 +800,7 @@ SUBCHECKS = [
         clause="slice_by_index agrees with Python slice semantics (signed steps)"),
     Sub("truncate_index", "hyp", truncate_index_body, strategy=truncate_index_case, quick=600, thorough=15000,
         clause="truncate_by_index leaves x[start:stop], y[start:stop]"),
+    Sub("history", "hyp", history_body, strategy=history_case, quick=300, thorough=6000,
+        clause="all four selectors on ONE Weaver, alternating with steps that move the grid (same or other sample "
+               "count): every call selects from the series as it is at that moment"),
 ]
